@@ -17,13 +17,13 @@ def main():
         rc = mod.run(a.tier, seed)
     except Exception:
         import traceback, lib
-        if lib.DRIVER_OK:
-            raise
-        # the model no longer builds and the implementation-side search could not run to the end either
+        # the search could not run to the end (the implementation returned something the harness did not expect, or the
+        # model no longer builds): the property is no longer shown to hold; say so instead of dying without a verdict
         tb = traceback.format_exc()
         sys.stderr.write(tb)
         ck = lib.Check(a.pid, a.tier, seed)
-        ck.broken.append('the model no longer builds (see the build log) and the search crashed: ' + tb[-600:])
+        ck.broken.append(('the model no longer builds (see the build log) and ' if not lib.DRIVER_OK else '') +
+                         'the check aborted with an unexpected exception: ' + tb[-900:])
         rc = ck.finish(rule='search aborted')
     sys.exit(rc)
 
